@@ -207,10 +207,8 @@ KEEPS_EVERY_ELEMENT = ("iter", "iter_mut", "into_iter", "enumerate", "rev", "by_
 SHORT_CIRCUITING = ("any", "all", "find", "find_map", "position", "rposition", "try_for_each", "try_fold", "take_while", "map_while", "skip_while", "is_sorted_by")
 
 
-def effectful_short_circuits(prog, crates=("pasfmt_core",), effects=("pasfmt_core::lang::Token::set_content",), field_writes=(("pasfmt_core::lang::FormattingData", None),)):
-    """Call sites `iter.any(closure)` (all / find / position / try_for_each / take_while ..) whose closure — itself, its nested closures or the
-    workspace functions it calls (depth 4) — replaces a token's text or stores into a FormattingData: [(site, what the closure does)].
-    Such an adapter stops at the first element for which the closure answers; the effect on the remaining elements never happens."""
+def _effect_oracle(prog, crates, effects, field_writes):
+    """npath -> what the function (its closures, the workspace functions it calls, depth 4) does to a token's text / a FormattingData, or None"""
     memo = {}
 
     def effect_of(npath, depth=0):
@@ -250,6 +248,73 @@ def effectful_short_circuits(prog, crates=("pasfmt_core",), effects=("pasfmt_cor
                     break
         memo[npath] = res
         return res
+    return effect_of
+
+
+def effects_skipped_by_own_flag(prog, crates=("pasfmt_core",), effects=("pasfmt_core::lang::Token::set_content",), field_writes=(("pasfmt_core::lang::FormattingData", None),)):
+    """The operator form of a short circuit: `changed = changed || step(x)` / `if !changed { changed = step(x) }` inside a loop, where
+    `step` replaces token text or stores layout counters.  A call site with such an effect that lies in a loop behind a branch on a
+    bool local which the loop itself assigns from that call's result, the other side of the branch staying in the loop: once the
+    step has answered, it is never run for the remaining elements.  (A branch whose other side leaves the loop is a fixpoint / search
+    loop and is not meant.)  -> [(site, description)], number of effectful call sites inside loops that were looked at"""
+    from panic import source_place
+    effect_of = _effect_oracle(prog, crates, effects, field_writes)
+    out, n = [], 0
+    for b in prog.bodies.values():
+        if not any(b.crate.startswith(c) for c in crates) or "::tests::" in b.npath:
+            continue
+        loops = b.loops()
+        if not loops:
+            continue
+        for c in b.calls():
+            inl = [(h, L) for h, L in loops.items() if c.bb in L]
+            if not inl or c.t.get("dst") is None:
+                continue
+            tg = prog.callees_of_site(c) | {c.callee or ""}
+            eff = None
+            for t in tg:
+                if t in effects:
+                    eff = "calls %s" % t.split("::")[-1]
+                elif t:
+                    r = effect_of(t)
+                    if r:
+                        eff = "%s -> %s" % (t.split("::")[-1], r)
+                if eff:
+                    break
+            if not eff or b.locals[c.t["dst"]["l"]]["ty"] != "bool":
+                continue
+            n += 1
+            # locals that hold the call's result
+            holds = {c.t["dst"]["l"]}
+            grew = True
+            while grew:
+                grew = False
+                for bb, i, st in b.stmts():
+                    if st["k"] == "assign" and not st["dst"]["p"] and st["dst"]["l"] not in holds and st["rv"]["k"] == "use" and st["rv"]["op"]["k"] in ("copy", "move") \
+                            and not st["rv"]["op"]["place"]["p"] and st["rv"]["op"]["place"]["l"] in holds:
+                        holds.add(st["dst"]["l"])
+                        grew = True
+            for h, L in inl:
+                for sbb in L:
+                    t = b.blocks[sbb]["term"]
+                    if t["k"] != "switch" or sbb == c.bb or not b.dominates(sbb, c.bb):
+                        continue
+                    sp = source_place(b, t["discr"]) if t["discr"]["k"] in ("copy", "move") else None
+                    if not sp or sp["p"] or sp["l"] not in holds:
+                        continue
+                    succ = [x for _, x in t["targets"]] + [t["otherwise"]]
+                    # a side of the branch that stays in the loop and comes back to the header without passing the call
+                    stays = [x for x in succ if x in L and x != c.bb and (x == h or b.can_reach_avoiding(x, {h}, {c.bb} | (set(range(len(b.blocks))) - set(L))))]
+                    if stays:
+                        out.append((c, "%s, skipped once `%s` is set" % (eff, b.locals[sp["l"]].get("name") or "_%d" % sp["l"])))
+    return out, n
+
+
+def effectful_short_circuits(prog, crates=("pasfmt_core",), effects=("pasfmt_core::lang::Token::set_content",), field_writes=(("pasfmt_core::lang::FormattingData", None),)):
+    """Call sites `iter.any(closure)` (all / find / position / try_for_each / take_while ..) whose closure — itself, its nested closures or the
+    workspace functions it calls (depth 4) — replaces a token's text or stores into a FormattingData: [(site, what the closure does)].
+    Such an adapter stops at the first element for which the closure answers; the effect on the remaining elements never happens."""
+    effect_of = _effect_oracle(prog, crates, effects, field_writes)
     out = []
     n = 0
     for b in prog.bodies.values():
@@ -281,6 +346,11 @@ def no_effect_behind_a_short_circuit(prog, rep, R):
               % ((sites[0][1], (sites[0][0].callee or "").split("::")[-1], short(sites[0][0].body.npath)) if sites else ("", "", "")),
               where=sites[0][0].where() if sites else None, instance={"short_circuiting_adapter_sites": n, "with_effects": len(sites)})
     rep.floor(R, "short-circuiting adapter call sites in the core", n, 10)
+    # the operator form: `changed = changed || step(tok)` in a loop
+    sk, m = effects_skipped_by_own_flag(prog)
+    rep.check(not sk, R, "no-effect-skipped-by-its-own-flag",
+              "in %s a step that %s: written as `flag = flag || step(x)` (or `if !flag { flag = step(x) }`) in a loop, the step is not run for the elements after the first one for which it answers"
+              % ((short(sk[0][0].body.npath), sk[0][1]) if sk else ("", "")), where=sk[0][0].where() if sk else None, instance={"effectful_bool_steps_in_loops": m, "skipped_by_own_flag": len(sk)})
 
 
 def reflow_root_is_first_pass_root(prog, rep, R):
